@@ -517,6 +517,13 @@ def micro_programs():
                            ("Fee", ["txn Fee", "int 1000", "<="], ["txn Fee", "int 1000", ">"])):
         out.append((f"bottom/{fld}/bnz", "\n".join(["#pragma version 6", "b check", "ok:", "int 1", "return", "check:"] + pos + ["bnz ok"])))
         out.append((f"bottom/{fld}/bz", "\n".join(["#pragma version 6", "b check", "ok:", "int 1", "return", "check:"] + negd + ["bz ok"])))
+    # a Fee check against a value the tool cannot evaluate on ONE arm only, merged with an unconstrained arm (either arm first)
+    unkfee = ["txn Fee", "global MinTxnFee", "<=", "assert"]
+    sel = ["txn TypeEnum", "int pay", "=="]
+    out.append(("feeunk/checked-falls-through", "\n".join(["#pragma version 6"] + sel + ["bz join"] + unkfee + ["join:", "int 1", "return"])))
+    out.append(("feeunk/checked-jumps", "\n".join(["#pragma version 6"] + sel + ["bnz check", "b join", "check:"] + unkfee + ["join:", "int 1", "return"])))
+    out.append(("feeunk/checked-in-sub", "\n".join(["#pragma version 6"] + sel + ["bz skip", "callsub chk", "b join", "skip:", "int 7", "pop", "join:", "int 1", "return", "chk:"] + unkfee + ["retsub"])))
+    out.append(("feeunk/three-arms", "\n".join(["#pragma version 6"] + sel + ["bnz check", "txn TypeEnum", "int axfer", "==", "bnz other", "b join", "check:"] + unkfee + ["b join", "other:", "txn Fee", "int 300000", "<=", "assert", "join:", "int 1", "return"])))
     # a leaf block that asserts one check and RETURNS another computed condition
     chk = {"RekeyTo": ["txn RekeyTo", "global ZeroAddress", "=="], "Fee": ["txn Fee", "int 1000", "<="], "CloseRemainderTo": ["txn CloseRemainderTo", "global ZeroAddress", "=="],
            "OnCompletion": ["txn OnCompletion", "int UpdateApplication", "!="], "GroupSize": ["global GroupSize", "int 2", "=="], "unrelated": ["txn NumAppArgs", "int 1", "=="]}
